@@ -102,6 +102,11 @@ def read_records(fmt, text, **kw):
     return list(cls(io.StringIO(text), calc_cis_trans=True, **kw))
 
 
+PSEUDO = ['C[C@H](O)[C@@H](F)[C@H](O)C', 'C[C@H](O)[C@H](F)[C@@H](O)C', 'O[C@H]1C[C@@H](O)C[C@H](F)C1', 'O[C@H]1C[C@@H](O)C[C@@H](F)C1',
+          'C[C@H]1CC[C@@H](C)CC1', 'C[C@H]1CC[C@H](C)CC1', 'O[C@H]1C[C@@H](O)C1', 'C[C@H](N)[C@@H](O)[C@H](N)C', 'F[C@H]1C[C@@H](F)C[C@H](F)C1',
+          'C[C@@H](Cl)[C@H](Br)[C@@H](C)Cl', 'O[C@@H]1[C@H](O)[C@@H](O)[C@H](O)[C@@H](O)[C@H]1O', 'C[C@H]1C[C@@H](C)C[C@H](C)C1']
+
+
 def mol_fields(m, with_h=False):
     return ([(n, a.atomic_number, a.isotope, a.charge, a.is_radical) + ((a.implicit_hydrogens,) if with_h else ()) for n, a in m.atoms()],
             {frozenset((n, k)): b.order for n, k, b in m.bonds()})
@@ -139,14 +144,36 @@ def compare_molecule(ctx, fmt, a, b, src, meta=True):
         da, db = T.stereo_descriptors(a), T.stereo_descriptors(b)
         ctx.counters['stereo.labels-compared'] += len(da)
         if da != db:
-            if SY.has_equivalent_substituents(a) and all(k in da and (k not in db or da[k][0] == db[k][0]) for k in set(da) | set(db)):
-                ctx.exclude('pseudo-asymmetric label', {'src': src})
+            d = T.diff_records({'stereo': da}, {'stereo': db})
+            kind = d[0].split("('")[1].split("'")[0] if d and "('" in d[0] else '?'
+            keys = [k for k in set(da) | set(db) if da.get(k) != db.get(k)]
+            if keys and all(_degenerate_depiction(a, k, da, db) for k in keys):
+                # recorded finding: the writer puts the wedge on a bond whose meaning is numerically undefined in this depiction
+                ctx.violation('configuration-differs/wedge-on-degenerate-bond-of-collinear-depiction', '%s (%s): %s' % (src, fmt, d[:2]), w)
             else:
-                d = T.diff_records({'stereo': da}, {'stereo': db})
-                kind = d[0].split("('")[1].split("'")[0] if d and "('" in d[0] else '?'
                 ctx.violation('configuration-differs/%s/%s' % (kind, fmt), '%s: %s' % (src, d[:2]), w)
-                return False
+            return False
     return True
+
+
+def _degenerate_depiction(m, key, da, db):
+    """tetrahedral centre with three neighbours and an implicit hydrogen, two of the neighbours drawn exactly opposite each other
+    (collinear through the centre): a wedge on the third bond spans zero volume, its sign is decided by rounding noise"""
+    if key[0] != 'T' or key not in da or key not in db or da[key][0] != db[key][0]:
+        return False            # only sign flips, never lost labels
+    n = key[1]
+    nb = list(m._bonds[n])
+    if len(nb) != 3:
+        return False
+    c = m._atoms[n]
+    v = [(m._atoms[x].x - c.x, m._atoms[x].y - c.y) for x in nb]
+    for i in range(3):
+        for j in range(i + 1, 3):
+            (ax, ay), (bx, by) = v[i], v[j]
+            la, lb = (ax * ax + ay * ay) ** .5, (bx * bx + by * by) ** .5
+            if la > 1e-9 and lb > 1e-9 and abs(ax * by - ay * bx) < 1e-6 * la * lb and ax * bx + ay * by < 0:
+                return True
+    return False
 
 
 def with_coords(m, s):
@@ -544,6 +571,9 @@ def worker(ctx):
         ids = list(range(len(c)))
         _random.Random(ctx.seed).shuffle(ids)
         src = [c[i] for k, i in enumerate(ids[:cfg['n_mols']]) if ctx.mine(k)] + [s for k, (s, _) in enumerate(G.special()) if ctx.mine(k)]
+        # centres that become stereogenic only after other centres are labelled (pseudo-asymmetric chains and rings)
+        dim = [x for x in G.symmetric_dimers() if x.count('@') >= 2 and '/' not in x and '=' not in x] + PSEUDO
+        src += [x for k, x in enumerate(dim) if ctx.mine(k // 4) and (k % 4 == ctx.seed % 4 or ctx.tier == 'thorough')]
         pool = []
         repo_files(ctx, rng)
         for name, m in boundary_molecules(rng):
